@@ -55,6 +55,9 @@ pub struct Known {
     pub detail_contains: Vec<String>,
     #[serde(default)]
     pub what: String,
+    /// matcher: if given, the violation's scenario must equal this
+    #[serde(default)]
+    pub scenario: Option<String>,
 }
 
 thread_local! {
@@ -89,7 +92,7 @@ pub fn triage(property: &str, vs: Vec<Violation>) -> (Vec<Violation>, Vec<(Strin
         if !seen.insert(v.key()) {
             continue;
         }
-        match known.iter().find(|k| k.kind == v.kind && k.detail_contains.iter().all(|s| v.detail.contains(s))) {
+        match known.iter().find(|k| k.kind == v.kind && k.scenario.as_ref().map(|s| *s == v.scenario).unwrap_or(true) && k.detail_contains.iter().all(|s| v.detail.contains(s))) {
             Some(k) => matched.push((format!("{}: {}", k.id, k.what), v)),
             None => new.push(v),
         }
